@@ -219,3 +219,70 @@ def h5(prog):
                              "msg": "coverage::intersect adds `%s` addresses without clipping to the end of the queried range: the piece taken from a stored range that begins before the query extends past the query (`1 10 aset 2 3 aset overlap` yields [2, 10) instead of [2, 3))" % short(L)[:60],
                              "detail": None})
     return inst, findings
+
+
+def h6(prog):
+    """coverage::remove may stop after trimming the range that contains `start` only when the removed interval ENDS inside that
+    range (the hole case); otherwise the following ranges must still be examined"""
+    from cfg import CFG
+    inst, findings = [], []
+    f = prog.func_opt("coverage::remove")
+    if f is None:
+        raise Broken("anchor coverage::remove vanished")
+    ps = {p["n"]: p["id"] for p in f["params"]}
+    if "length" not in ps:
+        raise Broken("coverage::remove no longer takes (start, length)")
+    tainted = {ps["length"]}
+    decls = [v for x in walk(f["body"]) if x.get("k") == "decl" for v in x["vars"]]
+    changed = True
+    while changed:
+        changed = False
+        for v in decls:
+            if v["id"] not in tainted and v.get("init") is not None and any(y.get("k") == "ref" and y.get("id") in tainted for y in walk(v["init"])) \
+               and v.get("t") in ("unsigned long", "const unsigned long"):
+                tainted.add(v["id"])
+                changed = True
+    g = CFG(f)
+    loops = [x for x in walk(f["body"]) if x.get("k") in ("while", "for")]
+    if not loops:
+        raise Broken("coverage::remove no longer walks the following ranges with a loop (unmodelled shape)")
+    loop_ids = {id(y) for lp in loops for y in walk(lp)}
+    loop_nodes = {n.id for n in g.nodes if isinstance(n.ast, dict) and (id(n.ast) in loop_ids or any(id(y) in loop_ids for y in walk_nolambda(n.ast)))}
+
+    def ends_inside_edge(n, lab):
+        """True edge of `a_end < r_end` / `r_end > a_end`: the removed interval ends inside the stored range"""
+        if n.kind != "cond" or not isinstance(n.ast, dict):
+            return False
+        c = unwrap(n.ast)
+        if c.get("k") != "bin" or c.get("op") not in ("<", ">", "<=", ">="):
+            return False
+        l, r = unwrap(c["lhs"]), unwrap(c["rhs"])
+        lt = isinstance(l, dict) and l.get("k") == "ref" and l.get("id") in tainted
+        rt = isinstance(r, dict) and r.get("k") == "ref" and r.get("id") in tainted
+        if lt == rt:
+            return False
+        if (lt and c["op"] in ("<",)) or (rt and c["op"] in (">",)):
+            return lab is True
+        if (lt and c["op"] in (">=",)) or (rt and c["op"] in ("<=",)):
+            return lab is False
+        return False
+
+    def guard_edge(n, lab):
+        """the initial guard: empty set or zero length"""
+        if n.kind != "cond" or not isinstance(n.ast, dict):
+            return False
+        c = unwrap(n.ast)
+        if c.get("k") == "call" and c.get("fn") == "empty" and lab is True:
+            return True
+        if c.get("k") == "bin" and c.get("op") == "==" and any(isinstance(unwrap(z), dict) and unwrap(z).get("id") == ps["length"] for z in (c["lhs"], c["rhs"])) and lab is True:
+            return True
+        return False
+    reach = g.reachable(avoid=lambda n: n.id in loop_nodes,
+                        edge_ok=lambda n, t, lab: not ends_inside_edge(n, lab) and not guard_edge(n, lab))
+    bad = [n for n in g.nodes if n.id in reach and n.kind == "ret" and n.id not in loop_nodes]
+    inst.append(("H6:coverage::remove", {"early_returns_outside_hole_case": [n.loc for n in bad]}))
+    if bad:
+        findings.append({"key": "H6:coverage::remove", "where": "libzwerg/" + (bad[0].loc or f["l"]),
+                         "msg": "coverage::remove returns at %s before looking at the following ranges although the removed interval need not end inside the first range: `sub` then leaves members of the subtrahend in later runs" % bad[0].loc,
+                         "detail": None})
+    return inst, findings
